@@ -358,6 +358,46 @@ func (fv *FV) contractCall(name string, call *ast.CallExpr, cx *Cx) (TV, bool) {
 			_, ty = fv.binder(&ast.BinaryExpr{X: ast.NewIdent("x"), Op: token.MUL, Y: call.Args[2]})
 		}
 		return TV{T: sel(m.T, k.T), S: SInt, Ty: ty}, true
+	case "elems":
+		x := fv.expr(call.Args[0], cx)
+		st, ok := types.Unalias(x.Ty).Underlying().(*types.Slice)
+		if !ok {
+			panic(refuse("elems of %v", x.Ty))
+		}
+		es := u.sortOf(st.Elem())
+		e := fv.get(cx.st, "E!"+string(es), arr(SInt, arr(SInt, es)))
+		return TV{T: sel(e, sx("sl_base", x.T)), S: arr(SInt, es)}, true
+	case "soff", "sbase", "scap":
+		x := fv.expr(call.Args[0], cx)
+		return TV{T: sx("sl_"+name[1:], x.T), S: SInt, Ty: tInt}, true
+	case "mk":
+		// mk(TypeName, args...): value of a value-struct type
+		tn := call.Args[0].(*ast.Ident).Name
+		obj, ok := u.Pkg.Types.Scope().Lookup(tn).(*types.TypeName)
+		if !ok {
+			panic(refuse("mk: unknown type %s", tn))
+		}
+		s := u.sortOf(obj.Type())
+		var args []string
+		for _, a := range call.Args[1:] {
+			args = append(args, fv.expr(a, cx).T)
+		}
+		return TV{T: sx("mk_"+tn, args...), S: s, Ty: obj.Type()}, true
+	case "mapHas", "mapGet":
+		m := fv.expr(call.Args[0], cx)
+		k := fv.expr(call.Args[1], cx)
+		mt, ok := types.Unalias(m.Ty).Underlying().(*types.Map)
+		if !ok {
+			panic(refuse("%s on %v", name, m.Ty))
+		}
+		cell := u.mapCell(mt)
+		ks, vs := u.sortOf(mt.Key()), u.sortOf(mt.Elem())
+		if name == "mapHas" {
+			dom := fv.get(cx.st, "MD!"+cell, arr(SInt, arr(ks, SBool)))
+			return b(sel(sel(dom, m.T), k.T))
+		}
+		val := fv.get(cx.st, "MV!"+cell, arr(SInt, arr(ks, vs)))
+		return TV{T: sel(sel(val, m.T), k.T), S: vs, Ty: mt.Elem()}, true
 	case "emptyset":
 		return TV{T: "((as const (Array Int Bool)) false)", S: arr(SInt, SBool)}, true
 	case "setof":
@@ -700,7 +740,7 @@ func (fv *FV) contractedCall(call *ast.CallExpr, cx *Cx) []TV {
 				}
 				benv[m.Bound] = TV{T: "r!", S: SInt, Ty: fv.refTypeOfField(f)}
 				cond := fv.expr(m.Where, ccx.with(func(c *Cx) { c.env = benv; c.inOld = true })).T
-				fv.assume(st, fmt.Sprintf("(forall ((r! Int)) (! (=> (and (< 0 r!) (< r! %s) %s) (= %s %s)) :pattern (%s)))",
+				fv.assume(st, fmt.Sprintf("(forall ((r! Int)) (! (=> (and (<= 0 r!) (< r! %s) %s) (= %s %s)) :pattern (%s)))",
 					allocPre, not(cond), sel(nw, "r!"), sel(old, "r!"), sel(nw, "r!")))
 			}
 		}
@@ -800,11 +840,24 @@ func (fv *FV) cellForField(f string) string {
 			fv.cellSort[cell] = arr(SInt, arr(SInt, Sort(f[6:])))
 		}
 		return cell
-	case strings.HasPrefix(f, "MapDom."):
-		cell := "MD!" + f[7:]
-		return cell
-	case strings.HasPrefix(f, "MapVal."):
-		return "MV!" + f[7:]
+	case strings.HasPrefix(f, "MapDom."), strings.HasPrefix(f, "MapVal."):
+		kv := f[7:]
+		k := strings.Index(kv, "!")
+		ks, vs := Sort(kv[:k]), Sort(kv[k+1:])
+		if fv.u.mapKeySort == nil {
+			fv.u.mapKeySort = map[string]Sort{}
+		}
+		fv.u.mapKeySort[kv] = ks
+		if _, ok := fv.cellSort["MD!"+kv]; !ok {
+			fv.cellSort["MD!"+kv] = arr(SInt, arr(ks, SBool))
+			fv.decl("MD!"+kv+"@0", fv.cellSort["MD!"+kv])
+			fv.cellSort["MV!"+kv] = arr(SInt, arr(ks, vs))
+			fv.decl("MV!"+kv+"@0", fv.cellSort["MV!"+kv])
+		}
+		if strings.HasPrefix(f, "MapDom.") {
+			return "MD!" + kv
+		}
+		return "MV!" + kv
 	}
 	if _, ok := fv.u.CS.GhostFields[f]; ok {
 		fv.readsCell(f, &Cx{st: fv.entry})
